@@ -265,15 +265,29 @@ Contexts(T) ==
     TUnion(<<TS("bytes"), T>>), TOpt(T), TStruct(<< <<"s_a", T>> >>), ClsS(T), ClsP(T) }
   \cup (IF T.k \in KeyKinds THEN { TDict("dict", T, TInt) } ELSE {})
 
+(* C12: tagged unions.  Variants V1 and V3 accept the same bodies; V2 differs in the type of y. *)
+TagFld(tok) == Fld("s_kind", TLit(<<MkStr(tok)>>), DefVal(MkStr(tok)))
+V1 == TCls("V1", << TagFld("s_v1"), Fld("s_y", TInt, DefVal(MkInt(6))) >>, <<"struct">>, "struct")
+V2 == TCls("V2", << TagFld("s_v2"), Fld("s_y", TStr, DefVal(MkStr("s_a"))) >>, <<"struct">>, "struct")
+V3 == TCls("V3", << TagFld("s_v3"), Fld("s_y", TInt, DefVal(MkInt(6))), Fld("s_z", TInt, DefVal(MkInt(7))) >>, <<"struct">>, "struct")
+V4 == TCls("V4", << Fld("s_y", TInt, NoDef), TagFld("s_v1") >>, <<"struct", "tuple">>, "struct")
+N1 == TCls("N1", << Fld("s_kind", TLit(<<MkInt(0)>>), DefVal(MkInt(0))), Fld("s_y", TInt, DefVal(MkInt(6))) >>, <<"struct">>, "struct")
+N2 == TCls("N2", << Fld("s_kind", TLit(<<MkInt(2)>>), DefVal(MkInt(2))), Fld("s_y", TInt, DefVal(MkInt(6))) >>, <<"struct">>, "struct")
+TTagged(vs, lay) ==
+  [k |-> "tagged", vars |-> vs, tag |-> "s_kind",
+   tags |-> [i \in DOMAIN vs |-> FieldByName(vs[i], "s_kind").d.v], lay |-> lay, tk |-> "s_t", ck |-> "s_c"]
+TaggedLeaves == { TTagged(vs, lay) : vs \in { <<V1, V2>>, <<V1, V2, V3>>, <<V3, V1>>, <<V4, V2>>, <<N1, N2>> },
+                                     lay \in {"int", "ext", "adj"} }
+
 (* C11: members that overlap *)
 UPoolQ == { TInt, TFloat, TS("complex"), TS("bool"), TStr, TS("fraction"), TS("date"), TS("datetime"), TS("none"),
             TLit(<<MkInt(1), MkInt(2)>>), TLit(<<MkStr("s_a")>>), EnumS, TAnn(TInt, <<[k |-> "pos"]>>), SubI,
             TSeq("list", TInt), TSeq("tuplevar", TInt), TTuple(<<TInt, TInt>>),
             ClsT(TInt), TCls("KB", << Fld("s_a", TInt, NoDef) >>, <<"struct", "tuple">>, "struct"),
             TStruct(<< <<"s_a", TInt>> >>) }
-UPoolT == UPoolQ \cup { TS("decimal"), TS("time"), TS("any"), TS("pattern"), TS("path"), EnumI, SubS, TOpt(TInt),
+UPoolT == UPoolQ \cup { TTagged(<<V1, V2>>, "ext"), TTagged(<<V1, V2>>, "int"), TS("decimal"), TS("time"), TS("any"), TS("pattern"), TS("path"), EnumI, SubS, TOpt(TInt),
                         TDict("dict", TStr, TInt), TSeq("set", TInt) }
-UnionLeaves(P) == { TUnion(<<a, b>>) : a, b \in P }
+UnionLeaves(P) == { TUnion(<<a, b>>) : a, b \in P } \cup { TOpt(TTagged(<<V1, V2>>, lay)) : lay \in {"int", "ext", "adj"} }
 UnionNest(U) == { TUnion(<<U, m>>) : m \in {TStr, TFloat, TS("none")} } \cup { TUnion(<<m, U>>) : m \in {TStr, TInt} }
                 \cup { TOpt(U), TSeq("list", U), TDict("dict", TStr, U), ClsS(U) }
 
@@ -297,20 +311,6 @@ CondInnerQ == { TInt, TFloat, TS("fraction"), TSeq("set", TInt), TSeq("list", TI
 CondInnerT == CondInnerQ \cup { TS("complex"), TS("decimal"), TDict("dict", TStr, TInt), TOpt(TInt), TSeq("tuplevar", TFloat), TS("bytes") }
 CondLeaves(I, CS) == { TAnn(t, <<c>>) : t \in I, c \in CS }
                      \cup { TAnn(t, <<[k |-> "nonneg"], c>>) : t \in {TInt, TFloat}, c \in CBaseNum \cup CBaseUser }
-
-(* C12: tagged unions.  Variants V1 and V3 accept the same bodies; V2 differs in the type of y. *)
-TagFld(tok) == Fld("s_kind", TLit(<<MkStr(tok)>>), DefVal(MkStr(tok)))
-V1 == TCls("V1", << TagFld("s_v1"), Fld("s_y", TInt, DefVal(MkInt(6))) >>, <<"struct">>, "struct")
-V2 == TCls("V2", << TagFld("s_v2"), Fld("s_y", TStr, DefVal(MkStr("s_a"))) >>, <<"struct">>, "struct")
-V3 == TCls("V3", << TagFld("s_v3"), Fld("s_y", TInt, DefVal(MkInt(6))), Fld("s_z", TInt, DefVal(MkInt(7))) >>, <<"struct">>, "struct")
-V4 == TCls("V4", << Fld("s_y", TInt, NoDef), TagFld("s_v1") >>, <<"struct", "tuple">>, "struct")
-N1 == TCls("N1", << Fld("s_kind", TLit(<<MkInt(0)>>), DefVal(MkInt(0))), Fld("s_y", TInt, DefVal(MkInt(6))) >>, <<"struct">>, "struct")
-N2 == TCls("N2", << Fld("s_kind", TLit(<<MkInt(2)>>), DefVal(MkInt(2))), Fld("s_y", TInt, DefVal(MkInt(6))) >>, <<"struct">>, "struct")
-TTagged(vs, lay) ==
-  [k |-> "tagged", vars |-> vs, tag |-> "s_kind",
-   tags |-> [i \in DOMAIN vs |-> FieldByName(vs[i], "s_kind").d.v], lay |-> lay, tk |-> "s_t", ck |-> "s_c"]
-TaggedLeaves == { TTagged(vs, lay) : vs \in { <<V1, V2>>, <<V1, V2, V3>>, <<V3, V1>>, <<V4, V2>>, <<N1, N2>> },
-                                     lay \in {"int", "ext", "adj"} }
 
 (* dataclass family: one class per feature of the layout / naming / default rules (C14, C15, and the
    class parts of C01, C03, C05, C06, C09) *)
